@@ -12,6 +12,10 @@ pub fn scenario(g: &mut G, ctx: &RunCtx) -> RunReport {
     let mut plan = bodyx::gen_plan(g, max);
     plan.faults.read_eintr.clear();
     plan.rereads = 0;
+    if plan.read_api == 2 {
+        // take(n).read_to_end() waits for n bytes by contract
+        plan.read_api = 1;
+    }
     // the same exchange inside a TLS session (whichever back end this build has): one record per segment
     if g.chance(1, 4) {
         plan.tls = true;
